@@ -328,6 +328,32 @@ impl Spec {
                 }
             }
         };
+        // Equality of Push payloads is by CONTENT, whatever the representation (frame.rs `impl PartialEq for
+        // PushPayload`): a vectored frame equals the vectored frame of the same bytes cut elsewhere and the
+        // single-slice frame of the concatenation, and differs from one with a byte changed or dropped.
+        // (Decoding yields the single representation, so the round trip below never compares two vectored ones.)
+        if let Spec::PushV(id, ps) = self {
+            let flat: Vec<u8> = ps.concat();
+            let cut = flat.len() / 3;
+            let other = vec![CowBytes::Temporary(&flat[..cut]), CowBytes::Temporary(&[][..]), CowBytes::Temporary(&flat[cut..])];
+            let same_v = Frame::new_push_vectored(*id, other);
+            let same_s = Frame::new_push(*id, &flat);
+            let eqs = catch(|| (frame == same_v, same_v == frame, frame == same_s, same_s == frame)).map_err(|p| format!("comparing Push frames panicked: {p}"))?;
+            if eqs != (true, true, true, true) {
+                return Err(format!("Push frames with the same id and bytes compare unequal across representations (vectored/vectored, reversed, vectored/single, reversed): {eqs:?}"));
+            }
+            let mut changed = flat.clone();
+            if let Some(b) = changed.last_mut() { *b ^= 1 } else { changed.push(0) }
+            let ccut = changed.len() / 2;
+            let diff_v = Frame::new_push_vectored(*id, vec![CowBytes::Temporary(&changed[..ccut]), CowBytes::Temporary(&changed[ccut..])]);
+            let other_id = Frame::new_push_vectored(id.wrapping_add(1), vec![CowBytes::Temporary(&flat[..cut]), CowBytes::Temporary(&flat[cut..])]);
+            let nes = catch(|| (frame == diff_v, diff_v == frame, frame == other_id)).map_err(|p| format!("comparing Push frames panicked: {p}"))?;
+            if nes != (false, false, false) {
+                return Err(format!("Push frames with different bytes or ids compare equal: {nes:?}"));
+            }
+        }
+        // `Debug` and `opcode()` are total (the task logs every frame at trace level)
+        catch(|| (format!("{frame:?}").len(), frame.opcode() as u8)).map_err(|p| format!("Debug / opcode() panicked: {p}"))?;
         let host_too_long = matches!(self, Spec::Dgram(_, _, h, _) if h.len() > 255);
         let enc = match catch(|| Vec::from(&frame)) {
             Ok(v) => v,
